@@ -716,7 +716,7 @@ def rule_R(ctx):
             gt = tuple(back.fields.get(f_) for f_ in ('year', 'month', 'day', 'hour', 'min', 'sec')) if isinstance(back, orders.Obj) else None
         except orders.Unsupported as ex:
             raise shape_error('ObsTime print/read not interpretable: %s' % ex, fo_.loc())
-        except (IndexError, KeyError, TypeError, AttributeError, ValueError, orders.Raised) as ex:
+        except orders.PROGRAM_ERRORS as ex:
             txt, gt = None, '%s: %s' % (type(ex).__name__, ex)
         if gt != st[:6]:
             found.setdefault('default-format', ('with the default formats a printed timestamp is read back identical to the second', {'timestamp': list(st), 'printed': txt, 'read back': list(gt) if isinstance(gt, tuple) else gt}))
@@ -745,7 +745,7 @@ def rule_R(ctx):
             back = TR.readFromFile(path, fmt)
         except orders.Unsupported as ex:
             raise shape_error('CSV write/read not interpretable: %s' % ex, fw.loc())
-        except (IndexError, KeyError, TypeError, AttributeError, ValueError, ZeroDivisionError, orders.Raised) as ex:
+        except orders.PROGRAM_ERRORS as ex:
             found.setdefault('fails', ('a written CSV file can be read back with the matching format', dict(case, exception='%s: %s' % (type(ex).__name__, str(ex)[:200]), file=vfs.files.get(path, '')[:300])))
             continue
         if isinstance(back, orders.Obj) and '_TrackCollection__TRACES' in back.fields:
@@ -784,7 +784,7 @@ def rule_R(ctx):
                                      'why': 'the default timestamp print format contains a blank: the reader splits the timestamp into two fields'})
     except orders.Unsupported as ex:
         raise shape_error('CSV write/read not interpretable: %s' % ex, fw.loc())
-    except (IndexError, KeyError, TypeError, AttributeError, ValueError, ZeroDivisionError, orders.Raised) as ex:
+    except orders.PROGRAM_ERRORS as ex:
         found['sep-clash: '] = ('a file written with the documented blank separator can be read back', {'exception': '%s: %s' % (type(ex).__name__, str(ex)[:200])})
     for key, (desc, wit) in sorted(found.items()):
         ctx.violation('C13.R', fw, desc, wit, node=fw.node, key=key)
@@ -872,7 +872,7 @@ def rule_X(ctx):
             OT.setReadFormat(read_fmt0)
         except orders.Unsupported as ex:
             raise shape_error('GPX write/read not interpretable: %s' % ex, fw.loc())
-        except (IndexError, KeyError, TypeError, AttributeError, ValueError, ZeroDivisionError, orders.Raised) as ex:
+        except orders.PROGRAM_ERRORS as ex:
             found.setdefault('gpx-fails', ('GPX files written by the writer can be read back', dict(case, exception='%s: %s' % (type(ex).__name__, str(ex)[:200]))))
     # ---- network CSV
     fnw = ctx.prog.func('tracklib.io.network_writer.NetworkWriter.writeToCsv')
@@ -915,7 +915,7 @@ def rule_X(ctx):
             back = NR.readFromFile('/out/net.csv', fmt, False)
         except orders.Unsupported as ex:
             raise shape_error('network write/read not interpretable: %s' % ex, fnw.loc())
-        except (IndexError, KeyError, TypeError, AttributeError, ValueError, ZeroDivisionError, orders.Raised) as ex:
+        except orders.PROGRAM_ERRORS as ex:
             found.setdefault('net-fails', ('a network written to CSV can be read back', dict(case, exception='%s: %s' % (type(ex).__name__, str(ex)[:200]), file=nvfs.files.get('/out/net.csv', '')[:300])))
             continue
         E2 = back.fields.get('EDGES') if isinstance(back, orders.Obj) else None
@@ -954,7 +954,7 @@ def rule_X(ctx):
                 found.setdefault('wkt', ('a track exported as WKT text and parsed back has the same planimetric coordinates', dict(case, text=txt, read=got)))
         except orders.Unsupported as ex:
             raise shape_error('WKT export/parse not interpretable: %s' % ex, fw.loc())
-        except (IndexError, KeyError, TypeError, AttributeError, ValueError, orders.Raised) as ex:
+        except orders.PROGRAM_ERRORS as ex:
             found.setdefault('wkt', ('a track exported as WKT text can be parsed back', dict(case, exception='%s: %s' % (type(ex).__name__, str(ex)[:200]))))
     for key, (desc, wit) in sorted(found.items()):
         f_ = fnw if key.startswith('net') else (fwkt if key.startswith('wkt') else fw)
